@@ -118,6 +118,26 @@ pub fn cases(tier: Tier) -> Vec<BigCase> {
             }
         }
     }
+    // several tracks, each independently short / exactly at 2^32-1 / above 2^32 movie ticks: every assignment for 2 and 3
+    // tracks, so the long track comes first, in the middle and last (movie header form follows the longest track)
+    for n in [2usize, 3] {
+        let kinds = [Kind::Avc, Kind::Aac, Kind::Ttxt];
+        for code in 0..3usize.pow(n as u32) {
+            let levels: Vec<usize> = (0..n).map(|i| (code / 3usize.pow(i as u32)) % 3).collect();
+            let mut s = vec![];
+            for (ti, lv) in levels.iter().enumerate() {
+                let sum: u64 = [3000u64, u32::MAX as u64, TWO32 + 7 + ti as u64][*lv];
+                let parts = 3u64;
+                let mut left = sum;
+                for i in 0..parts {
+                    let part = if i + 1 == parts { left } else { left / (parts - i) };
+                    s.push((ti as u32 + 1, 1 + (i % 2), part as u32, 0i32, i == 0));
+                    left -= part;
+                }
+            }
+            v.push(BigCase { name: format!("tracks_durations_{:?} (0 short, 1 = 2^32-1, 2 above 2^32)", levels), origin: 0, movie_ts: 1000, tracks: (0..n).map(|i| (kinds[i], 1000)).collect(), samples: s, heavy: false });
+        }
+    }
     v
 }
 
